@@ -8,6 +8,7 @@ import (
 	"unsafe"
 
 	"google.golang.org/protobuf/encoding/protowire"
+	"google.golang.org/protobuf/internal/protolazy"
 	"google.golang.org/protobuf/proto"
 	"google.golang.org/protobuf/reflect/protoreflect"
 	"google.golang.org/protobuf/runtime/protoiface"
@@ -508,6 +509,43 @@ func contract_MessageInfo_unmarshalPointerLazy(mi *MessageInfo, b []byte, p poin
 	requires(len(b) < 1<<32)
 	modifiesAll()
 	ensures(imp(err == nil, 0 <= out.n && out.n <= len(b)))
+	return
+}
+
+// The first access to a lazy field decodes the indexed byte range with a tag loop of its own
+// (unmarshalField): like the other tag loops it only ever advances inside its input (every
+// re-slicing is justified), and a field coder is entered only for an occurrence whose PARSED tag
+// carries the field's number, with the wire type of that parsed tag and the bytes that follow
+// the parsed tag - a tag is never assumed to have its minimal length (the index ranges start at a
+// tag of whatever encoding the sender chose).
+//
+// @ props C17 C06
+// @ mode int
+// @ nopanic
+// @ loop 1 invariant suffixOf(b, old(b))
+// @ site b = b[n:]: 0 <= n && n <= len(b)
+// @ site b = b[1:]: 1 <= len(b)
+// @ site b = b[2:]: 2 <= len(b)
+// @ site b = b[o.n:]: 0 <= o.n && o.n <= len(b)
+// @ site wtyp := protowire.Type(tag & 7): protowire.MinValidNumber <= num && num <= protowire.MaxValidNumber && uint64(num) == tag>>3
+// @ callsite f.funcs.unmarshal: num == f.num && arg[protowire.Type](2) == protowire.Type(tag&7) && identical(arg[[]byte](0), b) && arg[*coderFieldInfo](3) == f && arg[pointer](1) == p
+func contract_MessageInfo_unmarshalField(mi *MessageInfo, b []byte, p pointer, f *coderFieldInfo, lazyInfo *protolazy.XXX_lazyUnmarshalInfo, flags protoiface.UnmarshalInputFlags) (err error) {
+	requires(f != nil)
+	modifiesAll()
+	return
+}
+
+// lazyUnmarshal (first access) hands every indexed range to unmarshalField and never enters a
+// field coder itself: the tag parsing above is the only way from index bytes to a coder.
+//
+// @ props C17
+// @ mode int
+// @ nopanic
+// @ callsite f.funcs.unmarshal: false
+// @ callsite mi.unmarshalField: arg[*coderFieldInfo](2) == f && arg[pointer](1) == fp && f != nil
+func contract_MessageInfo_lazyUnmarshal(mi *MessageInfo, p pointer, num protoreflect.FieldNumber) {
+	requires(mi != nil)
+	modifiesAll()
 	return
 }
 
